@@ -23,6 +23,13 @@ def chunks(tier):
                                "flow": "system" if method == "rectangle" else "borehole"}))
     for n in range(1, (10 if full else 8) + 1):
         out.append(("A2", {"fam": "A2", "method": "nearsquare", "n": n}))
+    for method in ("nearsquare", "rectangle"):
+        for n in range(1, (13 if full else 7)):
+            out.append(("A1Z", {"fam": "A1Z", "method": method, "n": n, "flow": "system" if n % 2 else "borehole"}))
+    for method in ("nearsquare", "bizoned") if not full else ("nearsquare", "rectangle", "bizoned", "birectangle"):
+        for n in range(1, (7 if full else 5)):
+            if KINDS_1D(method):
+                out.append(("A7", {"fam": "A7", "method": method, "n": n}))
     for n in range(1, 6):
         out.append(("A3", {"fam": "A3", "method": "rectangle", "n": n}))
     for method in ("birectangle", "bizoned", "constrained"):
@@ -72,6 +79,10 @@ def chunks(tier):
     return out
 
 
+def KINDS_1D(method):
+    return method in ("nearsquare", "rectangle")
+
+
 PROPS = ()
 
 
@@ -99,7 +110,7 @@ def main_for(prop, run: core.Run, rule_extra: str, require=(), only=None):
         run.drive(chs, family=fam, init_args=(prop,))
     rule = (
         "one evaluation = one complete GHEManager.find_design() of the real search code over a fake-physics world "
-        "(families A1 monotone thresholds, A2 sign patterns, A3 sign x rank, A4 nested lists, A5 real candidate lists and A6 the real RowWise "
+        "(families A1 monotone thresholds (A1Z: a temperature limit of exactly 0), A7 reconfiguration histories on one manager, A2 sign patterns, A3 sign x rank, A4 nested lists, A5 real candidate lists and A6 the real RowWise "
         "generator, both with a drilling-length world); every world of each family within the bound is enumerated; non-trivial = the search "
         "evaluated at least 3 candidates at max height; states/transitions = abstract search states "
         "(method, list shape, set of answered (candidate, height class, sign)) and simulate() steps between them. "
